@@ -52,6 +52,7 @@ var commonAssumptions = []string{
 	"the fsx interpreter implements SSA instruction semantics faithfully (validated by the tv corpus, not proved)",
 	"stdlib stubs and runtime models as listed in DESIGN.md §2.6/§3.2",
 	"results hold only within the stated bounds",
+	"concurrent entries: sleep-set reduction is applied under the preemption bound, so the bound applies to the explored representative of each partial-order class - a schedule within the bound whose representative exceeds it is not explored (DESIGN 16.3)",
 }
 
 var propSpecs = []PropSpec{
